@@ -194,6 +194,23 @@ Proof.
   destruct (step (pcfg g c) (set_tok p (gtok s)) a); [discriminate|congruence].
 Qed.
 
+(* a run that cannot be extended has finished every pair: both tasks done, the pipe removed -- with pairs_terminate: every
+   execution is finite and ends with everything done and no trace left *)
+Theorem pairs_maximal_run_completes g l s :
+  total_demand g <= gslots g -> Forall (fun c => 1 <= pipecap c) (cfgs g) ->
+  grun g (ginit g) l = Some s -> (forall ia, gstep g s ia = None) ->
+  forall i p, nth_error (pairs s) i = Some p -> pp p = PDone /\ cp p = CDone /\ fifo p = false.
+Proof.
+  intros Hs Hcap R Hmax i p Hp.
+  assert (N : ~ unfinished p).
+  { intros U. destruct (pairs_progress g l s i p Hs Hcap R Hp U) as [a Ha]. apply Ha, Hmax. }
+  unfold unfinished in N.
+  assert (P : pp p = PDone) by (destruct (pp p); auto; exfalso; apply N; right; left; discriminate).
+  assert (C : cp p = CDone) by (destruct (cp p); auto; exfalso; apply N; right; right; discriminate).
+  assert (F : fifo p = false) by (destruct (fifo p); auto; exfalso; apply N; left; reflexivity).
+  auto.
+Qed.
+
 (* ---- termination: the sum of the pair measures strictly decreases ---- *)
 Fixpoint gmeasure (cs : list cfg) (ps : list st) : nat :=
   match cs, ps with
